@@ -160,6 +160,65 @@ def endpoints(prog):
 # facts extracted from chronicle._load (used by several rules)
 
 
+class _Scope:
+    """where a condition of _load is evaluated: _load itself or a predicate helper it calls (parameters mapped back)"""
+
+    def __init__(self, prog, func, entry_var, pmap, depth=0):
+        self.prog, self.func, self.entry_var, self.pmap, self.depth = prog, func, entry_var, pmap, depth
+        self.completed = set()
+        if entry_var is not None:
+            for n in func.own_nodes():
+                if (
+                    isinstance(n, ast.Assign)
+                    and len(n.targets) == 1
+                    and isinstance(n.targets[0], ast.Name)
+                    and self._parsed(n.value)
+                ):
+                    self.completed.add(n.targets[0].id)
+
+    def _parsed(self, e):
+        return (
+            isinstance(e, ast.Call)
+            and _q(self.prog, self.func, e) == 'external:datetime.datetime.fromisoformat'
+            and bool(e.args)
+            and _is_completed_sub(e.args[0], self.entry_var)
+        )
+
+    def is_completed(self, e):
+        return (isinstance(e, ast.Name) and e.id in self.completed) or self._parsed(e)
+
+    def param(self, e):
+        """name of the _load parameter an expression stands for, else None"""
+        return self.pmap.get(e.id) if isinstance(e, ast.Name) else None
+
+    def status_sub(self, e):
+        return self.entry_var is not None and _sub_key(e, lambda x: _is_name(x, self.entry_var)) == 'status'
+
+    def enter(self, call, h):
+        """scope of a same-module predicate helper called with the entry / window parameters as arguments"""
+        b = _bind(call, h)
+        if b is None or self.depth >= HELPER_DEPTH:
+            return None
+        ev, pmap = None, {}
+        for hp, a in b.items():
+            if isinstance(a, ast.Name):
+                if a.id == self.entry_var:
+                    ev = hp
+                elif a.id in self.pmap:
+                    pmap[hp] = self.pmap[a.id]
+        stores = {n.id for n in h.own_nodes() if isinstance(n, ast.Name) and isinstance(n.ctx, ast.Store)}
+        pmap = {k: v for k, v in pmap.items() if k not in stores}
+        return _Scope(self.prog, h, ev if ev not in stores else None, pmap, self.depth + 1)
+
+
+def _returned_expr(h):
+    """the single returned expression of a predicate helper (straight-line body: assignments, then return), else None"""
+    body = [s for s in h.node.body if not (isinstance(s, ast.Expr) and isinstance(s.value, ast.Constant))]
+    if body and isinstance(body[-1], ast.Return) and body[-1].value is not None and all(isinstance(s, (ast.Assign, ast.AnnAssign)) for s in body[:-1]):
+        return body[-1].value
+    return None
+
+
 class LoadFacts:
     """window parameters, entry variable, completion-time variables, status comparison and sort of chronicle._load"""
 
@@ -167,46 +226,51 @@ class LoadFacts:
         self.f = f = prog.func(Q_LOAD)
         self.prog = prog
         self.entry_var = None
+
+        def loaded(e):
+            if isinstance(e, ast.Call) and _q(prog, f, e) == 'external:json.load':
+                return True
+            if isinstance(e, ast.Name):
+                vals = assigned_value(f, e.id)
+                return bool(vals) and all(isinstance(v, ast.Call) and _q(prog, f, v) == 'external:json.load' for v in vals)
+            return False
+
         for n in f.own_nodes():
-            if isinstance(n, ast.For) and isinstance(n.iter, ast.Call) and _q(prog, f, n.iter) == 'external:json.load':
-                if isinstance(n.target, ast.Name):
-                    self.entry_var = n.target.id
+            if isinstance(n, ast.For) and isinstance(n.target, ast.Name) and loaded(n.iter):
+                self.entry_var = n.target.id
         if self.entry_var is None:
-            raise AnalysisError('chronicle._load no longer iterates `for <entry> in json.load(<file>)`')
-        # names holding the parsed completion time of the entry
-        self.completed = set()
-        for n in f.own_nodes():
-            if (
-                isinstance(n, ast.Assign)
-                and len(n.targets) == 1
-                and isinstance(n.targets[0], ast.Name)
-                and isinstance(n.value, ast.Call)
-                and _q(prog, f, n.value) == 'external:datetime.datetime.fromisoformat'
-                and n.value.args
-                and _is_completed_sub(n.value.args[0], self.entry_var)
-            ):
-                self.completed.add(n.targets[0].id)
+            raise AnalysisError('chronicle._load no longer iterates over the entries of json.load(<file>) with a for loop')
+        self.base = _Scope(prog, f, self.entry_var, {p: p for p in f.params()})
+        self.completed = self.base.completed
 
     def is_completed(self, e):
-        if isinstance(e, ast.Name) and e.id in self.completed:
-            return True
-        return (
-            isinstance(e, ast.Call)
-            and _q(self.prog, self.f, e) == 'external:datetime.datetime.fromisoformat'
-            and e.args
-            and _is_completed_sub(e.args[0], self.entry_var)
-        )
-
-    def _param(self, e):
-        return isinstance(e, ast.Name) and e.id in self.f.params()
+        return self.base.is_completed(e)
 
     def _status_sub(self, e):
-        return _sub_key(e, lambda x: _is_name(x, self.entry_var)) == 'status'
+        return self.base.status_sub(e)
 
-    def atoms(self, e):
-        """Compare -> (facts established when true, facts established when false);
-        facts: ('lower'|'upper', window parameter, strict) and ('status', compared expression, True)"""
+    def atoms(self, e, sc=None):
+        """condition -> (facts established when true, facts established when false);
+        facts: ('lower'|'upper', window parameter of _load, strict) and ('status', compared expression, True).
+        Boolean structure and single-expression predicate helpers of the same module are followed."""
+        sc = sc or self.base
         T, F = [], []
+        if isinstance(e, ast.UnaryOp) and isinstance(e.op, ast.Not):
+            t, f_ = self.atoms(e.operand, sc)
+            return f_, t
+        if isinstance(e, ast.BoolOp):
+            parts = [self.atoms(v, sc) for v in e.values]
+            if isinstance(e.op, ast.And):
+                return [x for t, _f in parts for x in t], []
+            return [], [x for _t, f_ in parts for x in f_]
+        if isinstance(e, ast.Call):
+            h = _helper(self.prog, sc.func, e)
+            if h is not None:
+                sub = sc.enter(e, h)
+                ret = _returned_expr(h)
+                if sub is not None and ret is not None:
+                    return self.atoms(ret, sub)
+            return T, F
         if not isinstance(e, ast.Compare):
             return T, F
         single = len(e.ops) == 1
@@ -217,17 +281,17 @@ class LoadFacts:
             if isinstance(op, (ast.Lt, ast.LtE, ast.Gt, ast.GtE)):
                 strict = isinstance(op, (ast.Lt, ast.Gt))
                 lo, hi = (a, b) if isinstance(op, (ast.Lt, ast.LtE)) else (b, a)  # lo < hi  (or <=)
-                if self._param(lo) and self.is_completed(hi):
-                    T.append(('lower', lo.id, strict))
+                if sc.param(lo) and sc.is_completed(hi):
+                    T.append(('lower', sc.param(lo), strict))
                     if single:
-                        F.append(('upper', lo.id, not strict))  # not (p < c)  ==  c <= p
-                elif self.is_completed(lo) and self._param(hi):
-                    T.append(('upper', hi.id, strict))
+                        F.append(('upper', sc.param(lo), not strict))  # not (p < c)  ==  c <= p
+                elif sc.is_completed(lo) and sc.param(hi):
+                    T.append(('upper', sc.param(hi), strict))
                     if single:
-                        F.append(('lower', hi.id, not strict))  # not (c < p)  ==  p <= c
+                        F.append(('lower', sc.param(hi), not strict))  # not (c < p)  ==  p <= c
             elif isinstance(op, (ast.Eq, ast.NotEq)):
                 for x, y in ((a, b), (b, a)):
-                    if self._status_sub(x):
+                    if sc.status_sub(x):
                         if isinstance(op, ast.Eq):
                             T.append(('status', norm(y), True))
                         elif single:
@@ -726,12 +790,15 @@ def _rule1(ctx, rep, lf):
 
 
 def _append_seps(prog):
-    """(separator append splits the completion text at, separator append uses when it converts datetimes itself)"""
+    """(separator at which append cuts the date off the completion text, separator append uses when it converts
+    datetimes itself); the cut may sit in a helper such as _journal_dir(completed)"""
     fa = prog.func(Q_APPEND)
-    split = conv = None
+    fl = _PathFlow(prog, fa)
+    fl.run(fa.node, frozenset())
+    seps = {x[0] for x in fl.dom.iso_sites}
+    split = seps.pop() if len(seps) == 1 else None
+    conv = None
     for c in fa.calls():
-        if isinstance(c.func, ast.Attribute) and c.func.attr == 'split' and _is_completed_sub(c.func.value, fa.params()[0]) and len(c.args) == 1 and isinstance(c.args[0], ast.Constant):
-            split = c.args[0].value
         if isinstance(c.func, ast.Attribute) and c.func.attr == 'isoformat' and not c.args:
             conv = 'T'
             for k in c.keywords:
@@ -987,9 +1054,52 @@ class PathDom:
     root:<symbol> | lit:<text> | Y@src M2@src D2@src (zero padded date fields) | M@src D@src (unpadded) |
     fn:<literal tail> (file name ending in that literal) | ent:<dir> (an entry of os.listdir(dir)) | ?<text> (unknown)"""
 
-    def __init__(self, prog, func):
-        self.prog, self.func = prog, func
-        self.iso_sites = []  # (split separator, replacement separator ok?, node)
+    def __init__(self, prog, func, iso_sites=None, depth=0):
+        self.prog, self.func, self.depth = prog, func, depth
+        self.iso_sites = [] if iso_sites is None else iso_sites  # (split separator, replacement separator ok?, node)
+
+    def tx(self, e, st):
+        """abstract text value: 'TIMING' = <entry>['timing'], 'COMPLETED' = its ['completed'], ('ISODATE', sep) = the
+        text of COMPLETED before its first <sep>; locals and helper parameters carry these through ('x', name)"""
+        if isinstance(e, ast.Name):
+            return sget(st, ('x', e.id))
+        if isinstance(e, ast.Subscript) and isinstance(e.slice, ast.Constant):
+            k = e.slice.value
+            if k == 'timing' and isinstance(e.value, ast.Name) and sget(st, ('x', e.value.id)) is None and sget(st, ('p', e.value.id)) is None:
+                return 'TIMING'  # <some entry>['timing']
+            base = self.tx(e.value, st)
+            if k == 'completed' and base == 'TIMING':
+                return 'COMPLETED'
+            if k == 0 and isinstance(e.value, ast.Call) and isinstance(e.value.func, ast.Attribute) and e.value.func.attr == 'split':
+                c = e.value
+                if self.tx(c.func.value, st) == 'COMPLETED' and len(c.args) == 1 and isinstance(c.args[0], ast.Constant):
+                    return ('ISODATE', c.args[0].value)
+        return None
+
+    def inline(self, call, st):
+        """value of a call of a same-module straight-line helper (assignments, then return), parameters bound abstractly"""
+        h = _helper(self.prog, self.func, call)
+        if h is None or self.depth >= HELPER_DEPTH:
+            return None
+        b = _bind(call, h)
+        body = [x for x in h.node.body if not (isinstance(x, ast.Expr) and isinstance(x.value, ast.Constant))]
+        if b is None or not body or not isinstance(body[-1], ast.Return) or body[-1].value is None:
+            return None
+        sub = PathDom(self.prog, h, self.iso_sites, self.depth + 1)
+        hst = frozenset()
+        for hp, a in b.items():
+            v = self.ev(a, st)
+            if not all(c.startswith('?') for c in v) or not v:
+                hst = sset(hst, ('p', hp), v)
+            hst = sset(hst, ('x', hp), self.tx(a, st))
+        for x in body[:-1]:
+            if not (isinstance(x, ast.Assign) and len(x.targets) == 1 and isinstance(x.targets[0], ast.Name)):
+                return None
+            v = sub.ev(x.value, hst)
+            t = x.targets[0].id
+            hst = sset(hst, ('p', t), v if not all(c.startswith('?') for c in v) or not v else None)
+            hst = sset(hst, ('x', t), sub.tx(x.value, hst))
+        return sub.ev(body[-1].value, hst)
 
     def is_sep(self, e):
         if isinstance(e, ast.Constant):
@@ -1059,32 +1169,24 @@ class PathDom:
                     c = _padded(df[0], f.value.value[2:-1] or None) if df else None
                     if c:
                         return (f'{c}@{df[1]}',)
-                # <entry>['timing']['completed'].split(S)[0].replace('-', SEP): the ISO date text as three directories
-                if (
-                    f.attr == 'replace'
-                    and len(e.args) == 2
-                    and isinstance(e.args[0], ast.Constant)
-                    and e.args[0].value == '-'
-                    and isinstance(f.value, ast.Subscript)
-                    and isinstance(f.value.slice, ast.Constant)
-                    and f.value.slice.value == 0
-                    and isinstance(f.value.value, ast.Call)
-                    and isinstance(f.value.value.func, ast.Attribute)
-                    and f.value.value.func.attr == 'split'
-                    and len(f.value.value.args) == 1
-                    and isinstance(f.value.value.args[0], ast.Constant)
-                    and _is_completed_sub(f.value.value.func.value)
-                ):
-                    if not any(n is e for _a, _b, n in self.iso_sites):
-                        self.iso_sites.append((f.value.value.args[0].value, self.is_sep(e.args[1]), e))
-                    if self.is_sep(e.args[1]):
-                        return ('Y@completed', 'M2@completed', 'D2@completed')
+                # <ISO date text of completed>.replace('-', SEP): the date as three directories
+                if f.attr == 'replace' and len(e.args) == 2 and isinstance(e.args[0], ast.Constant) and e.args[0].value == '-':
+                    t = self.tx(f.value, st)
+                    if isinstance(t, tuple) and t[0] == 'ISODATE':
+                        if not any(n is e for _a, _b, n in self.iso_sites):
+                            self.iso_sites.append((t[1], self.is_sep(e.args[1]), e))
+                        if self.is_sep(e.args[1]):
+                            return ('Y@completed', 'M2@completed', 'D2@completed')
                 # X.strftime('%Y/%m/%d') and pieces of it
                 if f.attr == 'strftime' and len(e.args) == 1 and isinstance(e.args[0], ast.Constant) and isinstance(e.args[0].value, str):
                     m = {'%Y': 'Y', '%m': 'M2', '%d': 'D2'}
                     parts = [x for x in e.args[0].value.split('/') if x]
                     if parts and all(x in m for x in parts):
                         return tuple(f'{m[x]}@{norm(f.value)}' for x in parts)
+        if isinstance(e, ast.Call):
+            v = self.inline(e, st)
+            if v is not None:
+                return v
         return ('?' + norm(e)[:40],)
 
 
@@ -1105,11 +1207,13 @@ class _PathFlow(Flow):
             for t in s.targets if isinstance(s, ast.Assign) else [s.target]:
                 if isinstance(t, ast.Name):
                     v = self.dom.ev(s.value, st)
+                    x = self.dom.tx(s.value, st)
                     st = sset(st, ('p', t.id), v if not all(c.startswith('?') for c in v) or not v else None)
+                    st = sset(st, ('x', t.id), x)
                 elif isinstance(t, (ast.Tuple, ast.List)):
                     for el in t.elts:
                         if isinstance(el, ast.Name):
-                            st = sset(st, ('p', el.id), None)
+                            st = sset(sset(st, ('p', el.id), None), ('x', el.id), None)
         elif isinstance(s, ast.AugAssign) and isinstance(s.target, ast.Name):
             st = sset(st, ('p', s.target.id), None)
         return (st,)
@@ -1131,6 +1235,7 @@ class _PathFlow(Flow):
         if ld is not None and isinstance(node.target, ast.Name):
             d = self.dom.ev(ld.args[0], st)
             self.rec('listdir', node, (d, tuple(sfx)), st)
+            st = sset(sset(st, ('sfx', node.target.id), None), ('nsfx', node.target.id), None)
             return (sset(st, ('p', node.target.id), ('ent:' + '/'.join(d),)),)
         for n in ast.walk(node.target):
             if isinstance(n, ast.Name):
@@ -1150,6 +1255,18 @@ class _PathFlow(Flow):
     def on_test(self, e, st):
         if isinstance(e, ast.Call) and _q(self.prog, self.func, e) in ('external:os.path.isdir', 'external:os.path.exists') and e.args:
             return self.on_dir_test(e, self.dom.ev(e.args[0], st), st)
+        # <listed name>.endswith(<literal>): a name filter written as a guard instead of inside the iterable
+        if (
+            isinstance(e, ast.Call)
+            and isinstance(e.func, ast.Attribute)
+            and e.func.attr == 'endswith'
+            and isinstance(e.func.value, ast.Name)
+            and len(e.args) == 1
+            and (sget(st, ('p', e.func.value.id)) or ('',))[0].startswith('ent:')
+        ):
+            c = e.args[0].value if isinstance(e.args[0], ast.Constant) else None
+            n = e.func.value.id
+            return (sset(st, ('sfx', n), sget(st, ('sfx', n), ()) + (c,)),), (sset(st, ('nsfx', n), True),)
         return (st,), (st,)
 
     def on_dir_test(self, e, comps, st):
@@ -1296,7 +1413,14 @@ def _rule3(ctx, rep, lf, names):
             f'_load does not simply read the files listed in its directory parameter: opens {[c for _n, c in opens]}',
         )
         r.instance()
-        sfx = sorted({s for _n, c in lds for s in c[1]}, key=str)
+        sfx = {s for _n, c in lds for s in c[1]}
+        for k, n, _c, st in rl.events:
+            if k.startswith('open-') and n.args:
+                for nm in names_in(n.args[0]):
+                    sfx |= set(sget(st, ('sfx', nm), ()))
+                    if sget(st, ('nsfx', nm)):
+                        sfx.add(None)  # opened on the branch where the name test failed: the filter is not a suffix filter
+        sfx = sorted(sfx, key=str)
         if wfile is not None:
             tail = wfile[-1][3:]
             r.check(
@@ -1358,9 +1482,12 @@ def _subst(e, name, repl):
     return S().visit(copy.deepcopy(e))
 
 
+_PURE = {'datetime', 'UTC', 'date', 'timezone', 'timedelta'}  # names allowed in a constant constructor expression
+
+
 class _FindFlow(Flow):
     """state pairs: 'orc' -> (after is None, before is None, limit is None) as given by the caller;
-    ('nn', v) -> v is None now; ('org', v) -> ('param', p) caller's value of parameter p | ('expr', text) | 'none';
+    ('nn', v) -> v is None now; ('org', v) -> ('param', p) caller's value of parameter p | ('expr', text, is a constant constructor) | 'none';
     ('b', v) -> value of a local assigned from a boolean expression"""
 
     def __init__(self, prog, func):
@@ -1402,8 +1529,10 @@ class _FindFlow(Flow):
             for x, y in ((a, b), (b, a)):
                 if isinstance(x, ast.Name):
                     org = sget(st, ('org', x.id))
-                    if isinstance(org, tuple) and org[0] == 'expr' and org[1] == norm(y) and not names_in(y) - {'datetime', 'UTC', 'date', 'timezone'}:
+                    oy = sget(st, ('org', y.id)) if isinstance(y, ast.Name) else ('expr', norm(y), not names_in(y) - _PURE)
+                    if isinstance(org, tuple) and org[0] == 'expr' and org[2] and org == oy:
                         # x holds the value of the very same constant constructor expression it is compared with
+                        # (directly or through a local such as `epoch`)
                         return isinstance(op, (ast.Eq, ast.GtE, ast.LtE))
         if isinstance(e, ast.Call) and isinstance(e.func, ast.Name) and e.func.id in ('all', 'any') and len(e.args) == 1:
             g = e.args[0]
@@ -1439,16 +1568,16 @@ class _FindFlow(Flow):
                 st = sset(sset(st, ('b', t), v.value), ('org', t), None)
                 st = sset(st, ('nn', t), False)
             else:
-                st = sset(sset(st, ('org', t), ('expr', norm(v))), ('nn', t), False)
+                st = sset(sset(st, ('org', t), ('expr', norm(v), not names_in(v) - _PURE)), ('nn', t), False)
                 st = sset(st, ('b', t), None)
         elif isinstance(s, ast.AugAssign) and isinstance(s.target, ast.Name):
             t = s.target.id
-            st = sset(sset(st, ('org', t), ('expr', norm(s))), ('b', t), None)
+            st = sset(sset(st, ('org', t), ('expr', norm(s), False)), ('b', t), None)
         elif isinstance(s, ast.Assign):
             for t in s.targets:
                 for n in ast.walk(t):
                     if isinstance(n, ast.Name) and isinstance(n.ctx, ast.Store):
-                        st = sset(sset(sset(st, ('org', n.id), ('expr', norm(s.value))), ('b', n.id), None), ('nn', n.id), None)
+                        st = sset(sset(sset(st, ('org', n.id), ('expr', norm(s.value), False)), ('b', n.id), None), ('nn', n.id), None)
         return (st,)
 
     def on_call(self, call, st):
@@ -1562,7 +1691,26 @@ def _rule4(ctx, rep, lf, ffl, fnode):
             )
         # every file and every entry is looked at: no early exit from the loops
         r.instance()
-        early = [n for lp in lf.f.own_nodes() if isinstance(lp, (ast.For, ast.While)) for n in ast.walk(lp) if isinstance(n, (ast.Break, ast.Continue, ast.Return))]
+        par_l = _parents(lf.f.node)
+
+        def name_filter_guard(n):
+            """`continue` directly under an `if` that only tests <name>.endswith(<literal>) (either polarity): skips a file
+            by its name, which R-C18-3 compares with the name the writer uses"""
+            p = par_l.get(n)
+            if not (isinstance(n, ast.Continue) and isinstance(p, ast.If)):
+                return False
+            t = p.test
+            while isinstance(t, ast.UnaryOp) and isinstance(t.op, ast.Not):
+                t = t.operand
+            return isinstance(t, ast.Call) and isinstance(t.func, ast.Attribute) and t.func.attr == 'endswith' and isinstance(t.func.value, ast.Name)
+
+        early = [
+            n
+            for lp in lf.f.own_nodes()
+            if isinstance(lp, (ast.For, ast.While))
+            for n in ast.walk(lp)
+            if isinstance(n, (ast.Break, ast.Continue, ast.Return)) and not name_filter_guard(n)
+        ]
         r.check(not early, f'{lf.f.qname}:no-early-exit', where(lf.f, early[0] if early else None), 'loops over files and entries have no break/continue/return', 'a loop of _load is left early: files or entries of the day are skipped (not understood)', nontrivial=False)
         # (b) what find binds to the window parameters
         if not ffl.loads:
@@ -2008,10 +2156,12 @@ def _Filter_sites(lf):
 class _Taint(Flow):
     """('t', local) -> set of handler parameters the local's value depends on"""
 
-    def __init__(self, prog, func, target):
+    def __init__(self, prog, func, target, depth=HELPER_DEPTH, consts=None):
         super().__init__()
-        self.prog, self.func, self.target = prog, func, target
-        self.calls = []  # (call, {callee parameter: frozenset of handler parameters}, bound?)
+        self.prog, self.func, self.target, self.depth = prog, func, target, depth
+        stores = {n.id for n in func.own_nodes() if isinstance(n, ast.Name) and isinstance(n.ctx, ast.Store)}
+        self.consts = {k: v for k, v in (consts or {}).items() if k not in stores}  # parameters bound to a literal by the caller
+        self.calls = []  # (call site in this function, {callee parameter: frozenset of handler parameters}, bound arguments)
 
     def deps(self, e, st):
         out = set()
@@ -2040,7 +2190,23 @@ class _Taint(Flow):
     def on_call(self, call, st):
         if _q(self.prog, self.func, call) == self.target:
             b = _bind(call, self.prog.func(self.target))
-            self.calls.append((call, None if b is None else {p: self.deps(a, st) for p, a in b.items()}, b))
+            deps = None if b is None else {p: self.deps(a, st) for p, a in b.items()}
+            if b is not None:
+                b = {p: (self.consts[a.id] if isinstance(a, ast.Name) and a.id in self.consts else a) for p, a in b.items()}
+            self.calls.append((call, deps, b))
+            return (st,)
+        # the query may sit in a same-module helper (shared body of several endpoints): follow it with the helper's
+        # parameters tainted by what the arguments depend on here
+        h = _helper(self.prog, self.func, call) if self.depth > 0 else None
+        if h is not None and _reaches(self.prog, h, {self.target}, self.depth - 1):
+            b = _bind(call, h)
+            if b is None:
+                self.calls.append((call, None, None))
+                return (st,)
+            sub = _Taint(self.prog, h, self.target, self.depth - 1, {hp: a for hp, a in b.items() if isinstance(a, ast.Constant)})
+            init = frozenset({(('t', hp), self.deps(a, st)) for hp, a in b.items()})
+            sub.run(h.node, init)
+            self.calls.extend((call, d, bb) for _c, d, bb in sub.calls)
         return (st,)
 
 
@@ -2057,7 +2223,7 @@ def _rule5(ctx, rep, outcome_param):
         n_handlers = 0
         for uri, hexpr, m, reg in endpoints(prog):
             hf = prog.func_of(prog.resolve_expr(hexpr, m))
-            if hf is None or not calls_to(prog, hf, Q_FIND):
+            if hf is None or not _reaches(prog, hf, {Q_FIND}):
                 continue
             n_handlers += 1
             rep.analysed(hf)
